@@ -65,21 +65,22 @@ TStep ==
           ELSE IF r.a = "fire" THEN TimerFire
           ELSE IF r.a = "resample" THEN Resample(r.lat)
           ELSE IF r.a = "finish" THEN Finish
-          ELSE IF r.a = "restart" THEN Restart
           ELSE FALSE
        /\ Quiescent(phase') => ObsChecks(r.obs, created', alignTo', ticks', joined')
        \* the harness has just run the real loop until nothing was ready, at an instant at which
        \* no timer is overdue and no sink is pending: every tick that is due must have been made
-       /\ (r.a \in {"create", "fire", "resample", "finish", "restart"} /\ phase' = "sleep" /\ now' < nextTick'
+       /\ (r.a \in {"create", "fire", "resample", "finish"} /\ phase' = "sleep" /\ now' < nextTick'
              /\ r.obs.pending = 0 /\ ~r.obs.dead) =>
              Check(CaughtUpSeq(r.obs.rec[1], created', now'), "C07.CaughtUp",
                    <<"now", now', "created", created', "series 1 got", r.obs.rec[1]>>)
-       \* resample() must still be running; when it is not, the verdict line names the modelled
-       \* cause if (and only if) the spec's own Finish took the IndexError branch at this very step
-       /\ (Quiescent(phase') \/ phase' = "crashed") =>
+       \* resample() must still be running.  When it is not, the verdict line names the cause if
+       \* it ended in the very Finish before which a series had been added to the pending gather
+       \* (the defect repaired in /repo 9f8dfea).  The harness restarts a dead loop after taking
+       \* the observation, so the remaining steps of the trace are still checked.
+       /\ (Quiescent(phase') \/ r.a = "finish") =>
              (IF ~r.obs.dead THEN TRUE
               ELSE Fail("C07.LoopAlive", <<"resample() ended with", r.obs.err>>,
-                        IF phase' = "crashed" /\ Dev_AddDuringGather' THEN <<"Dev_AddDuringGather">> ELSE <<>>))
+                        IF r.a = "finish" /\ Dev_AddDuringGather THEN <<"Dev_AddDuringGather">> ELSE <<>>))
     /\ l' = l + 1 /\ UNCHANGED tid
     /\ (l' > Len(Tr.steps)) => Done
 
